@@ -14,7 +14,8 @@ shuf  shuffle; numpy.random.RandomState(seed).shuffle is replayed to hand the mo
       permutations the implementation drew; outputs are compared exactly.
 
 Every call is made twice with the same seed (the global numpy generator is re-seeded differently
-in between): "same result" and "input bit-identical afterwards" enter the case as booleans.
+in between); seeds are passed as Python int, numpy int64/int32/uint8/uint64 scalars or 0-d integer
+arrays, and for a non-Python-int seed a third call uses int(seed) and must give the same tensor: "same result" and "input bit-identical afterwards" enter the case as booleans.
 """
 import itertools
 import json
@@ -40,7 +41,7 @@ RULE = ('enum: every sequence of length <= 8 (quick: <= 6) over alphabets of siz
         'pair of families; every (start, end) in [-L-2, L+2]^2 for sampled sequences. obs: compiled '
         'function on every sequence of the same scope (batched), end = L (seeds 0..1 up to length 7) and the default end = -1, plus random '
         'sequences up to length 300, alphabets 2-8, batch <= 4, n in {1,2,5,20}, random regions incl. '
-        'negative bounds. shuf: every sequence of length <= 6 (quick: <= 5) batched, every region in '
+        'negative bounds; seeds as Python int or numpy integer scalar / 0-d array (third call with int(seed) must agree). shuf: every sequence of length <= 6 (quick: <= 5) batched, every region in '
         '[-L-2, L+2]^2, n in {1,2}, seeds; random long; plus a malformed stream. Non-trivial = the call '
         'returned and its region has length >= 3 with >= 2 distinct characters in some example')
 EXHAUSTIVE = {'quick': True, 'thorough': True}
@@ -225,14 +226,48 @@ def canon(Y, B):
     return out
 
 
-def call_once(inp, X):
+# integer seed types the unchanged code accepts for both functions (probed on /repo: Python int,
+# numpy signed/unsigned integer scalars, 0-d integer arrays all give the stream of int(seed));
+# "a fixed integer seed" of the property text includes them
+SEED_TYPES = ('int', 'i64', 'i32', 'u8', 'u64', 'arr0', 'arr0_i32')
+
+
+def seed_value(inp, as_int=False):
+    t = 'int' if as_int else inp.get('seed_type', 'int')
+    v = int(inp['seed'])
+    if t == 'i64':
+        return numpy.int64(v)
+    if t == 'i32':
+        return numpy.int32(v)
+    if t == 'u8':
+        return numpy.uint8(v)
+    if t == 'u64':
+        return numpy.uint64(v)
+    if t == 'arr0':
+        return numpy.array(v)
+    if t == 'arr0_i32':
+        return numpy.array(v, dtype=numpy.int32)
+    return v
+
+
+def pick_seed(rng, big=True):
+    """(seed, seed_type): half the calls use a Python int; u8 seeds stay below 200 (seed + example index)"""
+    t = rng.choice(SEED_TYPES) if rng.random() < 0.5 else 'int'
+    v = rng.choice([0, 1, 2, 3, rng.randint(0, 10 ** 6) if big else 3])
+    if t == 'u8':
+        v %= 200
+    return v, t
+
+
+def call_once(inp, X, as_int=False):
     from tangermeme import ersatz
     kind = inp['kind']
     if kind == 'shuf':
-        return ersatz.shuffle(X, start=inp['start'], end=inp['end'], n=inp['n'], random_state=inp['seed'])
+        return ersatz.shuffle(X, start=inp['start'], end=inp['end'], n=inp['n'],
+                              random_state=seed_value(inp, as_int))
     if kind == 'obs':
         return ersatz.dinucleotide_shuffle(X, start=inp['start'], end=inp['end'], n=inp['n'],
-                                           random_state=inp['seed'])
+                                           random_state=seed_value(inp, as_int))
     # enum: pure-Python kernel + planned draws, inside the real API function
     src = Planned(inp['plan'])
     kernel = ersatz._fast_shuffle
@@ -309,16 +344,19 @@ def run_local(inp):
     X = to_tensor(A, inp['seqs'], dtype)
     X0 = X.clone()
     res = []
-    for rep in range(2):
+    # two calls with the seed as given; when it is not a Python int, a third with int(seed):
+    # equal integer values are the same seed
+    typed = inp['kind'] != 'enum' and inp.get('seed_type', 'int') != 'int'
+    for rep in range(3 if typed else 2):
         numpy.random.seed(1234567 + 7919 * rep)      # the result must not depend on the global state
         try:
-            Y = call_once(inp, X)
+            Y = call_once(inp, X, as_int=(rep == 2))
             enc = canon(Y, len(inp['seqs']))
             res.append(('ok', enc if enc is not None else 'shape'))
         except Exception as e:
             res.append(('raise', type(e).__name__))
     unchanged = bool(torch.equal(X, X0))
-    same = res[0] == res[1]
+    same = all(r == res[0] for r in res[1:])
     ok = res[0][0] == 'ok'
     return {'ok': ok, 'Y': res[0][1] if ok else None, 'err': None if ok else res[0][1],
             'unchanged': unchanged, 'same': same}
@@ -512,7 +550,8 @@ def generate(tier, rng):
             for i in range(0, len(seqs), 64):
                 for end, seed in ((L, 0), (-1, 0)) if (quick or L == 8) else ((L, 0), (L, 1), (-1, 0)):
                     yield {'kind': 'obs', 'A': A, 'seqs': seqs[i:i + 64], 'start': 0, 'end': end,
-                           'n': 1, 'seed': seed}
+                           'n': 1, 'seed': seed,
+                           'seed_type': rng.choice(SEED_TYPES) if rng.random() < 0.5 else 'int'}
     for _ in range(150 if quick else 700):
         A = rng.choice([2, 3, 4, 4, 4, 5, 8])
         L = rng.choice([3, 4, 6, 9, 14, 20, 33, 50, 80, 120, 200, 300])
@@ -524,9 +563,9 @@ def generate(tier, rng):
             n = {20: 5, 5: 2, 2: 1}[n]
         seqs = [rand_seq(rng, A, L, rng.random() < 0.4) for _b in range(B)]
         start, end = rand_region(rng, L)
+        sd, st = pick_seed(rng)
         yield {'kind': 'obs', 'A': A, 'seqs': seqs, 'start': start, 'end': end, 'n': n,
-               'seed': rng.choice([0, 1, 2, 3, rng.randint(0, 10 ** 6)]),
-               'dtype': 'f32' if rng.random() < 0.2 else 'i8'}
+               'seed': sd, 'seed_type': st, 'dtype': 'f32' if rng.random() < 0.2 else 'i8'}
     # ---------------- shuf (the permutation does not depend on the data: one batch of sequences
     # per alphabet and length, every region)
     for A in (2, 3, 4):
@@ -535,8 +574,9 @@ def generate(tier, rng):
             seqs = rng.sample(seqs, min(len(seqs), 16 if quick else 32))
             regions = [(st, en) for st in range(-2, L + 2) for en in range(-L - 2, L + 3)]
             for (st, en) in regions:
+                sd, sty = pick_seed(rng, big=False)
                 yield {'kind': 'shuf', 'A': A, 'seqs': seqs, 'start': st, 'end': en,
-                       'n': rng.choice([1, 2]), 'seed': rng.choice([0, 1, 2])}
+                       'n': rng.choice([1, 2]), 'seed': sd, 'seed_type': sty}
     for _ in range(150 if quick else 700):
         A = rng.choice([2, 3, 4, 4, 5, 8])
         L = rng.choice([3, 5, 8, 13, 21, 40, 80, 150, 300])
@@ -546,9 +586,9 @@ def generate(tier, rng):
             B -= 1
         seqs = [rand_seq(rng, A, L, rng.random() < 0.4) for _b in range(B)]
         start, end = rand_region(rng, L)
+        sd, st = pick_seed(rng)
         yield {'kind': 'shuf', 'A': A, 'seqs': seqs, 'start': start, 'end': end, 'n': n,
-               'seed': rng.choice([0, 1, 2, rng.randint(0, 10 ** 6)]),
-               'dtype': 'f32' if rng.random() < 0.2 else 'i8'}
+               'seed': sd, 'seed_type': st, 'dtype': 'f32' if rng.random() < 0.2 else 'i8'}
     # ---------------- malformed inputs (both functions must reject; nothing may be modified)
     for _ in range(40 if quick else 200):
         A = rng.choice([2, 3, 4])
@@ -589,6 +629,10 @@ def shrink(inp):
         c = dict(inp)
         c['seqs'] = [s[:-1] for s in inp['seqs']]
         yield c
+    if inp['kind'] != 'enum' and inp.get('seed_type', 'int') not in ('int', 'i64'):
+        c = dict(inp)
+        c['seed_type'] = 'i64'
+        yield c
     if inp['kind'] != 'enum' and inp.get('seed', 0) > 3:
         for sd in (0, 1):
             c = dict(inp)
@@ -605,7 +649,8 @@ def search(rng, disagreeing):
             for (st, en) in [(0, L), (0, -1), (1, L), (0, L - 1), (1, -2)]:
                 for kind in ('obs', 'shuf'):
                     yield {'kind': kind, 'A': inp['A'], 'seqs': inp['seqs'], 'start': st, 'end': en,
-                           'n': rng.choice([1, 2, 3]), 'seed': seed}
+                           'n': rng.choice([1, 2, 3]), 'seed': seed,
+                           'seed_type': SEED_TYPES[seed % len(SEED_TYPES)]}
 
 
 if __name__ == '__main__' and '--worker' in sys.argv:
